@@ -292,7 +292,14 @@ class C13(Engine):
         return st, info
 
     # ------------------------------------------------------------------ run
+    def cleanup_run(self, pid):
+        shutil.rmtree(f"/dev/shm/xvsim-tmp/{int(pid):07d}", ignore_errors=True)
+        super().cleanup_run(pid)
+
     def run_case(self, case, tape, emit):
+        if os.path.isdir("/dev/shm") and os.access("/dev/shm", os.W_OK):
+            # temporary files created without naming a directory land on another file system than the history
+            faultfs.FS_TMP.other_fs_dir = f"/dev/shm/xvsim-tmp/{os.getpid():07d}"
         root = os.path.join(procworld.scratch_for(os.getpid()), "data")
         os.makedirs(root, exist_ok=True)
         fd2 = os.open(os.path.join(procworld.scratch_for(os.getpid()), "stderr"), os.O_WRONLY | os.O_CREAT | os.O_APPEND, 0o600)
